@@ -1523,8 +1523,10 @@ MANIFEST = {
     'level_note': 'Trusted: Coq kernel, sympy (expression evaluation / structural equality), harness observation of '
                   'Loop trees and Tabor tables, exact dyadic floats.  The decision lists of prepare/tabor_compile/'
                   'make_compatible are ghost outputs of the model (the code has none); the commutation theorems are '
-                  'conditional on equal decision lists; the only input-level sufficient condition proved is "all '
-                  'sequence tables already have a valid length" (C15_prepare_decisions_long_tables).  5 known findings '
+                  'conditional on equal decision lists; sufficient conditions proved: SINGLE mode (unconditional), '
+                  '"the first compilation took only DSkip decisions" (C15_tabor_compile_skip_only) and "all sequence '
+                  'tables already have a valid length" (C15_prepare_decisions_long_tables); the equal-sharing '
+                  'hypothesis of the parser has no input-level condition yet.  5 known findings '
                   '(zero count dropped, merged negative product, shared volatile table, non-integer update rounds, '
                   'make_compatible bakes a volatile child without warning: repair prepared, not landed because C06 '
                   'observes the warning flag); 4 Tabor defects repaired in round 2.',
